@@ -20,6 +20,20 @@ class DrawTerms(Terms):
     """Terms in which an RNG draw is the opaque leaf ('draw', kind, block), closure and tuple literals are kept as
     ('agg', kind, key, operands...) and a call of a closure literal is replaced by the closure's (straight-line) body."""
 
+    def of_operand(self, op, depth=0):
+        # a constant array of scalars (`const A: [f64; 10]`, by value or through a promoted reference): ('carray', (v0, v1, ...))
+        if op.get("k") == "const" and isinstance(op.get("val"), dict):
+            v = op["val"]
+            if v.get("k") == "ref" and isinstance(v.get("to"), dict):
+                v = v["to"]
+            if v.get("k") == "array" and v.get("elems") and all(e.get("k") == "scalar" for e in v["elems"]):
+                from mirutil import const_value
+                vals = tuple(const_value(self.F, {"k": "const", "ty": e["ty"], "bits": e["bits"]}) for e in v["elems"])
+                if all(isinstance(x, (int, float)) and not isinstance(x, bool) for x in vals):
+                    return ("carray", vals)
+        return Terms.of_operand(self, op, depth)
+
+    MAX_DEPTH = 120
     pvals = None       # local -> term: the value a multiply-defined local has on the path being walked (set by summarize)
     forced = None      # local -> definition to use for it right now
 
@@ -120,6 +134,9 @@ def draw_kind(F, t):
     if m == "sample" and tr.endswith("::Distribution"):
         p = fn.get("res_path") or fn.get("path") or ""
         if fn.get("res_krate") == "rand" or p.startswith("<rand::"):
+            return _dist_name(p)
+        # `Exp1.sample(rng)` / `StandardNormal.sample(rng)`: the crate's own primitive (unit-struct) distributions called directly
+        if fn.get("res_krate") == "rand_distr" and _dist_name(p) in ("Exp1", "StandardNormal"):
             return _dist_name(p)
     return None
 
